@@ -4,7 +4,7 @@
      getRebalancedNamespacePartitions      (refusal when nodes < replicas)
      getRebalancedPartitionsFromNameList   (re-sort, refusal, round-robin interleave into one ring)
      fillPartitionMapV1                    (ring algorithm: r consecutive ring slots per partition)
-     fillPartitionMapV2                    (nameIndexMap rotation, leader/replica load maps, keep-old rule)
+     fillPartitionMapV2                    (old lists trimmed to r, nameIndexMap rotation, leader/replica load maps, keep-old rule)
      loadItemLeaderCmp, loadItemReplicaCmp, getMinMaxLoadForLeader, getMinMaxLoadForReplica
      findPidInList, removePidFromList, replaceReplicaWith, moveIfUnbalanced and its bounded loop
    murmur3.Sum32 is Part/Model.v's murmur3_32.
@@ -303,8 +303,12 @@ Fixpoint move_loop (fuel : nat) (ls : loads) (parts : layout) : outcome layout :
       end
   end.
 
+(* old lists longer than the wanted replica count are cut to their first r members before use
+   (trimmedOldNodes; since /repo 8ac1883 — before, the surplus members were counted as load and excluded
+   as candidates, which could leave no candidate: nil type assertion panic) *)
 Definition v2_fill_phase (h : N) (p r : nat) (olds : layout) (ring : list name) : outcome (loads * layout) :=
   let n := N.of_nat (length ring) in
+  let olds := map (firstn r) olds in
   fill_parts 0 p olds r (add_olds 0 olds (init_loads h n 0 ring)).
 
 Definition fill_v2 (h : N) (p r : nat) (olds : layout) (ring : list name) : outcome layout :=
@@ -332,3 +336,41 @@ Definition rebalance_from_lists (ver ns : bytes) (p r : N) (olds : layout) (list
 Definition rebalance (ver ns : bytes) (p r : N) (olds : layout) (nodes : list (name * tag)) : outcome layout :=
   if N.of_nat (length nodes) <? r then Refuse
   else rebalance_from_lists ver ns p r olds (node_name_list nodes).
+
+(* ---------- the consumers of the layout (DataPlacement methods) ---------- *)
+(* getCurrentPartitionNodes: the previous layout handed to the layout function is the list of the ISR lists
+   of all partitions of the namespace in the register; [isrs] is that list. *)
+
+(* allocNodeForNamespace: the first member of the wanted list of partition [part] that is not yet a raft
+   node of it; ErrNodeUnavailable (Refuse) when the layout is refused or no such member exists;
+   partitionNodes[Partition] out of range is a Go panic *)
+Definition alloc_node (ver ns : bytes) (p r : N) (isrs : layout) (nodes : list (name * tag)) (part : nat)
+  : outcome name :=
+  match rebalance ver ns p r isrs nodes with
+  | Ok l =>
+      match nth_error l part with
+      | None => Panic
+      | Some wanted =>
+          match find (fun x => negb (mem_name x (nth part isrs []))) wanted with
+          | Some x => Ok x
+          | None => Refuse
+          end
+      end
+  | Refuse => Refuse
+  | Panic => Panic
+  end.
+
+(* decideUnwantedRaftNode: the last ISR member of partition [part] that is not in its wanted list
+   ("" = none, also when the layout is refused) *)
+Definition unwanted_node (ver ns : bytes) (p r : N) (isrs : layout) (nodes : list (name * tag)) (part : nat)
+  : outcome name :=
+  match rebalance ver ns p r isrs nodes with
+  | Ok l =>
+      match nth_error l part with
+      | None => Panic
+      | Some wanted =>
+          Ok (fold_left (fun acc nid => if mem_name nid wanted then acc else nid) (nth part isrs []) [])
+      end
+  | Refuse => Ok []
+  | Panic => Panic
+  end.
